@@ -7,6 +7,21 @@ import os
 ROOT = os.path.dirname(os.path.dirname(os.path.abspath(__file__)))
 
 
+def update_design():
+    """rewrites the table between the seeded-table markers of DESIGN.md"""
+    import io
+    import re
+    import contextlib
+    buf = io.StringIO()
+    with contextlib.redirect_stdout(buf):
+        main()
+    path = os.path.join(ROOT, "DESIGN.md")
+    s = open(path).read()
+    s = re.sub(r"<!-- seeded-table:begin -->.*<!-- seeded-table:end -->",
+               lambda m_: "<!-- seeded-table:begin -->\n" + buf.getvalue().strip() + "\n<!-- seeded-table:end -->", s, flags=re.S)
+    open(path, "w").write(s)
+
+
 def main():
     rows = []
     for f in sorted(glob.glob(os.path.join(ROOT, "seeded", "C*", "meta.json"))):
@@ -29,4 +44,8 @@ def main():
 
 
 if __name__ == "__main__":
-    main()
+    import sys
+    if "--update" in sys.argv:
+        update_design()
+    else:
+        main()
